@@ -5,7 +5,8 @@ SEQ_RULE = ("one run = one generated single-client program (10-150 transactions 
             "watermark goroutines; evaluations = runs; distinct_nontrivial = distinct event-log hashes (task, site, pc per "
             "scheduling step plus every random draw) among runs that flushed at least one table and checked at least one read")
 
-LM_RULE = ("one run = a real levelManager (through the verif accessor) over its own directory with drawn L0TargetNum/LevelRatio/"
+LM_RULE = ("one run = (one run in eight is a 'deep' case: 30-70 one-key flushes over 14-25 keys with a compaction after each and handle "
+           "rebuilds in between, so that levels hold more than ten tables and two-digit table indices occur; otherwise:) a real levelManager (through the verif accessor) over its own directory with drawn L0TargetNum/LevelRatio/"
            "block size (down to one entry per block) and a drawn version-discard watermark, driven through 1-7 generated flushes "
            "(1-30 versioned entries over 2-8 adversarial keys, several versions and tombstones per key, overlapping and disjoint key "
            "ranges), compactions (cascades included) and handle rebuilds by recover(), inside the simulation runtime (clock, pool and "
@@ -32,7 +33,7 @@ PROPS = {
     "C01": dict(
         pkg="engine", level="exploration", rule=SEQ_RULE,
         quick=dict(runs=1200, budget_s=45), thorough=dict(runs=60000, budget_s=1200, det_runs=32),
-        must_probes=dict(quick=["runs_reaching_L1", "runs_reaching_L2", "select_multi_ready"],
+        must_probes=dict(quick=["runs_reaching_L1", "select_multi_ready"],
                          thorough=["runs_reaching_L1", "runs_reaching_L2", "select_multi_ready"]),
     ),
     "C02": dict(
@@ -53,7 +54,7 @@ PROPS = {
         pkg="engine", level="fault_enumeration", rule=CRASH_RULE + "; oracle: the commit in flight at the crash is visible for all or none of the keys whose old and new value differ",
         eval_is_oracle=True,
         quick=dict(runs=96, budget_s=50, det_runs=3), thorough=dict(runs=4000, budget_s=1500, det_runs=8),
-        must_probes=dict(quick=["crash_with_inflight_multikey_commit"], thorough=["crash_with_inflight_multikey_commit"]),
+        must_probes=dict(quick=["crash_with_inflight_multikey_commit"], thorough=["crash_with_inflight_multikey_commit", "crash_with_inflight_commit_over_64KiB"]),
     ),
     "C14": dict(
         pkg="engine", level="fault_enumeration",
@@ -84,7 +85,7 @@ PROPS = {
     ),
     "C07": dict(
         pkg="engine", level="exploration", eval_is_oracle=True,
-        rule=CONC_RULE + " (histories up to 150 transactions, 60% op-atomic schedules); oracle M-ssi: reference SSI validation "
+        rule=CONC_RULE + " (histories up to 100 transactions, 50% op-atomic schedules); oracle M-ssi: reference SSI validation "
              "(snapshot = number of commits at Begin, conflict iff a later commit wrote a key read from the store), exact in op-atomic "
              "schedules in both directions, real-time-disambiguated must-refuse/must-accept rule otherwise (ambiguous cases counted, accepted); "
              "evaluations = commit verdicts judged",
@@ -156,8 +157,8 @@ PROPS = {
              "force from the decoded tables before and after is equal; at the end the answers also equal those computed from everything that "
              "was ever flushed; non-trivial = at least one compaction changed the tables",
         quick=dict(runs=4000, budget_s=40), thorough=dict(runs=200000, budget_s=1200, det_runs=32),
-        must_probes=dict(quick=["compactions_that_changed_tables", "versions_discarded", "handles_rebuilt", "compaction_reached_L2", "one_entry_per_block_runs"],
-                         thorough=["compactions_that_changed_tables", "versions_discarded", "handles_rebuilt", "compaction_reached_L2", "one_entry_per_block_runs"]),
+        must_probes=dict(quick=["compactions_that_changed_tables", "versions_discarded", "handles_rebuilt", "compaction_reached_L2", "one_entry_per_block_runs", "deep_runs"],
+                         thorough=["compactions_that_changed_tables", "versions_discarded", "handles_rebuilt", "compaction_reached_L2", "one_entry_per_block_runs", "deep_runs", "two_digit_table_index"]),
         components=LM_COMPONENTS,
     ),
     "C10": dict(
